@@ -124,7 +124,10 @@ def _locate_droplets_in_mask_cartesian(mask: ScalarField) -> Emulsion:
     volumes = ndimage.sum(mask.data, labels, index=indices)
     volumes = np.asanyarray(volumes) * cell_volume
 
-    # connect clusters linked viaperiodic boundary conditions
+    # connect clusters linked via periodic boundary conditions. We first collect all
+    # links between clusters together with the shift (in cell coordinates) that attaches
+    # the linked cluster to the current one across the boundary
+    links: dict[int, set[tuple[int, int, int]]] = {}
     for ax in np.flatnonzero(grid.periodic):  # look at all periodic axes
         # compile list of all boundary points connected along the current axis
         low: list[list[int] | np.ndarray] = []
@@ -142,19 +145,40 @@ def _locate_droplets_in_mask_cartesian(mask: ScalarField) -> Emulsion:
             i_l, i_h = labels[l], labels[h]
             if i_l > 0 and i_h > 0 and i_l != i_h:
                 # boundary condition on the low side connects to that of the high side
-                # -> we combine the cluster into one, setting is new position as the
-                # weighted averages of the center of mass
-                v_l, v_h = volumes[i_l - 1], volumes[i_h - 1]
-                pos_l, pos_h = positions[i_l - 1], positions[i_h - 1]
-                pos_h[ax] -= grid.shape[ax]  # wrap around the upper point
-                pos = (pos_l * v_l + pos_h * v_h) / (v_l + v_h)
-                # update both clusters with the new data
-                positions[i_h - 1] = positions[i_l - 1] = pos
-                volumes[i_h - 1] = volumes[i_l - 1] = v_l + v_h
-                labels[labels == i_h] = i_l
+                # -> the upper cluster needs to be wrapped around to attach to the lower
+                links.setdefault(i_l, set()).add((i_h, ax, -1))
+                links.setdefault(i_h, set()).add((i_l, ax, 1))
+
+    # combine linked clusters into one, placing all parts in the frame of the first
+    # cluster and setting the new position as the weighted averages of the center of mass
+    offsets = np.zeros_like(positions)
+    visited = np.zeros(num_labels + 1, dtype=bool)
+    indices_present = []
+    for i_start in range(1, num_labels + 1):
+        if visited[i_start]:
+            continue
+        # collect all clusters connected to the current one
+        visited[i_start] = True
+        members, stack = [i_start], [i_start]
+        while stack:
+            i = stack.pop()
+            for j, ax, direction in sorted(links.get(i, ())):
+                if not visited[j]:
+                    visited[j] = True
+                    offsets[j - 1] = offsets[i - 1]
+                    offsets[j - 1, ax] += direction * grid.shape[ax]
+                    members.append(j)
+                    stack.append(j)
+        if len(members) > 1:
+            idx = np.array(members) - 1
+            vol = volumes[idx].sum()
+            pos = positions[idx] + offsets[idx]
+            positions[i_start - 1] = (volumes[idx, None] * pos).sum(axis=0) / vol
+            volumes[i_start - 1] = vol
+        indices_present.append(i_start)
 
     # determine which clusters are actually present
-    indices = np.array(sorted(set(np.unique(labels)) - {0}))
+    indices = np.array(indices_present)
 
     # create the list of droplets
     positions = grid.normalize_point(grid.transform(positions, "cell", "grid"))
